@@ -254,7 +254,11 @@ OkEulerMatrix(c) ==
 \* euler_from_matrix(M, axes) -> back ; M is the rotation of c.ang (when src = "euler": the floats
 \* euler_matrix returned), an exact cube rotation, or an exact rational rotation
 OkEulerFromMatrix(c) ==
-    IF ~Angs3Ok(c.back) \/ c.axes \notin ConvNames \/ ~PureRot4(c.M) \/ ~IsRotation3(RSub(c.M, 3)) THEN "BADINPUT"
+    IF ~Angs3Ok(c.back) \/ c.axes \notin ConvNames THEN "BADINPUT"
+    \* the matrix euler_matrix returned is already wrong (rejected in its own record): nothing to round-trip
+    ELSE IF c.src = "euler" /\ ~(Angs3Ok(c.ang) /\ PureRot4(c.M) /\ REq(RSub(c.M, 3), EulerRef(c.axes, c.ang)))
+         THEN "SKIP_upstream_result_already_rejected"
+    ELSE IF ~PureRot4(c.M) \/ ~IsRotation3(RSub(c.M, 3)) THEN "BADINPUT"
     ELSE IF c.src = "cube" /\ ~(IsIntegral(c.M) /\ Sub(AsInt(c.M), 3) \in Cube24) THEN "BADINPUT"
     ELSE IF ~REq(EulerRef(c.axes, c.back), RSub(c.M, 3)) THEN "returned_angles_rebuild_the_rotation"
     ELSE "ok"
@@ -356,8 +360,9 @@ OkCompose(c) ==
 \* With positive scales the factorisation is unique; with a negative scale only the recomposition
 \* is compared.
 OkDecompose(c) ==
-    IF ~Angs3Ok(c.ang) \/ ~REq(c.M, ComposeRef(c.s4, c.sh4, c.ang, c.tr4)) THEN "BADINPUT"
-    ELSE IF ~Angs3Ok(c.oang) THEN "BADINPUT"
+    IF ~Angs3Ok(c.ang) \/ ~Angs3Ok(c.oang) THEN "BADINPUT"
+    \* the matrix compose_matrix returned is already wrong (rejected in its own record)
+    ELSE IF ~REq(c.M, ComposeRef(c.s4, c.sh4, c.ang, c.tr4)) THEN "SKIP_upstream_result_already_rejected"
     ELSE IF PosScale(c) /\ c.os4 # c.s4 THEN "scale_returned"
     ELSE IF PosScale(c) /\ c.osh4 # c.sh4 THEN "shear_returned"
     ELSE IF c.otr4 # c.tr4 THEN "translation_returned"
@@ -399,7 +404,7 @@ OkPlanar(c) ==
 
 \* planar_matrix_to_3D(M2) -> res
 OkPlanarTo3D(c) ==
-    IF ~IsAffine(c.M2, 2) THEN "BADINPUT"
+    IF ~IsAffine(c.M2, 2) THEN "SKIP_upstream_result_already_rejected"
     ELSE IF ~IsAffine(c.res, 3) THEN "homogeneous_form"
     ELSE IF \E p \in {<<0, 0>>, <<1, 0>>, <<0, 1>>, <<2, -3>>} : \E z \in {0, 5} :
               LET im2 == Image(c.M2, p, TRUE)
